@@ -8,11 +8,12 @@ in hex, `~` = absent / empty list)
 
 `pdshmodel wcoll model`:
    MODE STDIN ENV NARGS ARG... NFILES (PATH R CONTENT)...
-   MODE = F<size> (fgets with a buffer of <size> bytes) or W (whole lines); ARG = one -w optarg
+   MODE = F<size> (fgets with a buffer of <size> bytes) or W (whole lines); ARG = one -w optarg (HEX) or
+   one -x optarg (X followed by HEX)
    answer: STATUS NWARN CREATED EXPRS EXCL OPENED   (STATUS ok|fatal|starved; lists comma separated)
 `pdshmodel wcoll spec`:
-   STDIN ENV NSRC SRC... NFILES (PATH R CONTENT)...     SRC = w:HEX | f:HEX | s
-   answer: STATUS SKIPPED EXPRS                          (STATUS ok|error)
+   STDIN ENV NSRC SRC... NFILES (PATH R CONTENT)...     SRC = w:HEX | f:HEX | s | x:HEX (exclusion file)
+   answer: STATUS SKIPPED EXPRS EXCLUDED                 (STATUS ok|error)
 -/
 namespace Driver.WcollDrv
 open PdshVerif PdshVerif.Opt
@@ -49,12 +50,13 @@ def runModel (line : String) : String :=
       let env ← optStr env
       let nargs ← nargs.toNat?
       let (args, rest) ← takeN nargs rest
-      let args ← args.mapM unhx
+      let args ← args.mapM fun a : String =>
+        if a.startsWith "X" then (unhx (a.drop 1).toString).map Wcoll.Opt.x else (unhx a).map Wcoll.Opt.w
       match rest with
       | nf :: rest =>
         let nf ← nf.toNat?
         let (fs, _) ← parseFiles nf rest
-        let st := Wcoll.assemble mode fs (stdin.getD []) args env
+        let st := Wcoll.assembleOpts mode fs (stdin.getD []) args env
         let status := if st.starved then "starved" else if st.fatal then "fatal" else "ok"
         pure s!"{status} {st.nwarn} {if st.created then 1 else 0} {hxs st.exprs} {hxs st.excl} {hxs st.opened.flatten}"
       | [] => none
@@ -65,6 +67,7 @@ def parseSrc (s : String) : Option WcollSpec.Source :=
   if s = "s" then some .stdin
   else if s.startsWith "w:" then (unhx (s.drop 2).toString).map .word
   else if s.startsWith "f:" then (unhx (s.drop 2).toString).map .file
+  else if s.startsWith "x:" then (unhx (s.drop 2).toString).map .xfile
   else none
 
 def runSpec (line : String) : String :=
@@ -81,7 +84,7 @@ def runSpec (line : String) : String :=
         let nf ← nf.toNat?
         let (fs, _) ← parseFiles nf rest
         let res := WcollSpec.assemble fs (stdin.getD []) srcs env
-        pure s!"{if res.error then "error" else "ok"} {res.skipped} {hxs res.exprs}"
+        pure s!"{if res.error then "error" else "ok"} {res.skipped} {hxs res.exprs} {hxs res.excluded}"
       | [] => none
     r.getD "bad-op"
   | _ => "bad-op"
